@@ -19,7 +19,7 @@
 //   age on (event "broken" when such an answer is first given); onetype: one instance type for all
 //   stalelist: the queue is empty at first; a list call of the pool is caught (snapshot: no instances)
 //   and held; only then the containers are queued; when the a container has a (slowly detaching,
-//   still Locked) process on the first instance - created after the snapshot - the stale answer is
+//   still Locked) process on an instance - created after the snapshot - the stale answer is
 //   released; later list calls wait until a second process of that container has appeared or 1.5 s
 //   have passed.  The pool must not drop the instance it created after the list call began.
 //   breakfirst k: the first k VMs stop answering shortly after creation while their (long-running)
@@ -379,7 +379,7 @@ func (e *vE2ERun) setupVM(svm *test.StubVM) {
 		return 0
 	}
 	svm.ExtraCrunchRunArgs = "'--foo' '--extra='\\''args'\\'''"
-	if scn.StaleList && n == 1 {
+	if scn.StaleList {
 		svm.CrunchRunDetachDelay = 2500 * time.Millisecond // its container stays Locked with a live process
 	}
 	if n <= scn.ReportBroken {
@@ -630,7 +630,7 @@ func vE2EOne(t *testing.T, scn *vE2EScenario, tw *vTraceWriter, hostpriv ssh.Sig
 		for _, ctr := range deferred {
 			e.queue.Notify(ctr)
 		}
-		uuid1 := ""
+		uuid1, first := "", -1
 		if os.Getenv("VERIF_DEBUG") != "" {
 			go func() {
 				for i := 0; i < 6; i++ {
@@ -645,9 +645,9 @@ func vE2EOne(t *testing.T, scn *vE2EScenario, tw *vTraceWriter, hostpriv ssh.Sig
 		}
 		for t0 := time.Now(); applicable && time.Since(t0) < 10*time.Second; time.Sleep(time.Millisecond) {
 			e.vmMu.Lock()
-			if len(e.vms) > 0 {
-				for u := range e.vms[0].VProcs() {
-					uuid1 = u // the container that landed on the first (slowly detaching) instance
+			for i, o := range e.vms {
+				for u := range o.VProcs() {
+					uuid1, first = u, i // a container has a (slowly detaching) process on an instance
 				}
 			}
 			e.vmMu.Unlock()
@@ -660,7 +660,7 @@ func vE2EOne(t *testing.T, scn *vE2EScenario, tw *vTraceWriter, hostpriv ssh.Sig
 			e.vmMu.Lock()
 			second := false
 			for i, o := range e.vms {
-				if _, ok := o.VProcs()[uuid1]; ok && i > 0 {
+				if _, ok := o.VProcs()[uuid1]; ok && i != first {
 					second = true
 				}
 			}
@@ -870,6 +870,53 @@ func vE2EOne(t *testing.T, scn *vE2EScenario, tw *vTraceWriter, hostpriv ssh.Sig
 	return elapsed
 }
 
+// vClassifyDeath looks at the output of a child test process that did not finish.  code = true only
+// if the process died of a Go panic (not the test timeout) whose panicking goroutine's first frame
+// outside the Go runtime lies in a non-test, non-harness file of lib/dispatchcloud other than its
+// test-support package: a panic raised by the code under test.
+func vClassifyDeath(cout string) (msg, where string, code bool) {
+	lines := strings.Split(cout, "\n")
+	k := -1
+	for i, l := range lines {
+		if strings.HasPrefix(l, "panic:") || strings.HasPrefix(l, "fatal error:") {
+			msg, k = l, i
+			break
+		}
+	}
+	if k < 0 {
+		tail := cout
+		if len(tail) > 300 {
+			tail = tail[len(tail)-300:]
+		}
+		return "no panic: " + strings.Replace(tail, "\n", " | ", -1), "", false
+	}
+	if strings.Contains(msg, "test timed out") || strings.HasPrefix(msg, "fatal error:") {
+		return msg, "", false
+	}
+	// frames of the first goroutine listed after the panic line (the panicking one)
+	g := -1
+	for i := k + 1; i < len(lines); i++ {
+		if strings.HasPrefix(lines[i], "goroutine ") {
+			g = i
+			break
+		}
+	}
+	if g < 0 {
+		return msg, "", false
+	}
+	for i := g + 1; i+1 < len(lines) && lines[i] != ""; i += 2 {
+		fn, file := lines[i], strings.TrimSpace(lines[i+1])
+		if strings.Contains(file, "/src/runtime/") || strings.HasPrefix(fn, "panic(") || strings.HasPrefix(fn, "runtime.") {
+			continue
+		}
+		where = strings.TrimSpace(fn) + " " + file
+		code = strings.Contains(file, "/lib/dispatchcloud/") && !strings.Contains(file, "/lib/dispatchcloud/test/") &&
+			!strings.Contains(file, "zz_verif_") && !strings.Contains(file, "_test.go")
+		return msg, where, code
+	}
+	return msg, where, false
+}
+
 // Parent: one child process per scenario, so that a panic of the code under test (the worker pool
 // can panic, see the report of C14) ends that scenario only; it is recorded as an event.
 func TestVerifC14E2E(t *testing.T) {
@@ -912,29 +959,21 @@ func TestVerifC14E2E(t *testing.T) {
 			out.WriteString(text + "\n")
 		}
 		if cerr != nil || !strings.Contains(string(cout), "VERIF-CHILD-DONE") {
-			msg := ""
-			for _, l := range strings.Split(string(cout), "\n") {
-				if strings.HasPrefix(l, "panic:") || strings.HasPrefix(l, "fatal error:") {
-					msg = l
-					break
-				}
-			}
-			where := ""
-			if k := strings.Index(string(cout), "goroutine "); k >= 0 {
-				fr := strings.Split(string(cout)[k:], "\n")
-				for j := 1; j < len(fr) && j < 12; j++ {
-					if strings.Contains(fr[j], "lib/dispatchcloud/") && strings.HasPrefix(fr[j], "git.arvados.org") {
-						where += strings.TrimSpace(fr[j]) + "; "
-					}
-				}
-			}
 			if text == "" {
 				b, _ := json.Marshal(map[string]interface{}{"ev": "reset", "scn": scn.ID, "nc": scn.N, "nw": 0, "init": []string{}, "mode": "sound"})
 				out.WriteString(string(b) + "\n")
 			}
-			b, _ := json.Marshal(map[string]interface{}{"ev": "crashed", "msg": msg, "where": where, "scn": scn.ID})
+			// Only a panic raised in the code under test is an observation about that code; a
+			// timeout, a kill, a failed set-up or a panic in harness / test-support code is an
+			// infrastructure failure of this run (the check drops the trace and counts it).
+			msg, where, code := vClassifyDeath(string(cout))
+			ev := map[string]interface{}{"ev": "infra", "what": msg, "where": where, "scn": scn.ID}
+			if code {
+				ev = map[string]interface{}{"ev": "crashed", "msg": msg, "where": where, "scn": scn.ID}
+			}
+			b, _ := json.Marshal(ev)
 			out.WriteString(string(b) + "\n")
-			fmt.Printf("VERIF-NOTE scenario %d: dispatcher process died: %s %s\n", scn.ID, msg, where)
+			fmt.Printf("VERIF-NOTE scenario %d: child process died (%s): %s %s\n", scn.ID, ev["ev"], msg, where)
 		}
 		if scn.Calm {
 			// calibration: elapsed time of the fault-free run, from its final event
